@@ -225,3 +225,88 @@ func (c *Ctx) ruleRequiredNumbers(rule string, floor int) {
 		}
 	}
 }
+
+// R-DESC-WRITE-GUARD: the optional scalar fields of FieldDescriptorProto that
+// carry presence information are written by ToFieldDescriptorProto under the
+// descriptor accessor that NewFile feeds from that very field (so that the
+// round trip is the identity on it), and not under the guard of a different
+// attribute: proto3_optional ↔ HasOptionalKeyword, json_name ↔ HasJSONName,
+// default_value ↔ HasDefault, oneof_index ↔ ContainingOneof. A proto3_optional
+// written only for members of a synthetic oneof is lost for proto3 optional
+// extensions, which have no containing oneof.
+var descWriteGuards = map[string]string{
+	"Proto3Optional": "HasOptionalKeyword",
+	"JsonName":       "HasJSONName",
+	"DefaultValue":   "HasDefault",
+	"OneofIndex":     "ContainingOneof",
+}
+
+func (c *Ctx) ruleDescWriteGuard(rule string) {
+	R, P := c.R, c.P
+	R.Rule(rule, "ToFieldDescriptorProto writes proto3_optional, json_name, default_value and oneof_index each under (only) the descriptor accessor that reports the attribute the field feeds: HasOptionalKeyword, HasJSONName, HasDefault, ContainingOneof", 4)
+	fi := c.need(rule, "reflect/protodesc.ToFieldDescriptorProto")
+	if fi == nil {
+		return
+	}
+	info := fi.Info()
+	pm := parentMap(fi.Decl.Body)
+	seen := map[string]bool{}
+	walk(fi.Decl.Body, func(n ast.Node) bool {
+		as, ok := n.(*ast.AssignStmt)
+		if !ok || len(as.Lhs) != 1 {
+			return true
+		}
+		se, ok := as.Lhs[0].(*ast.SelectorExpr)
+		if !ok {
+			return true
+		}
+		want, tracked := descWriteGuards[se.Sel.Name]
+		if !tracked {
+			return true
+		}
+		seen[se.Sel.Name] = true
+		// accessors mentioned by the enclosing guards
+		mentioned := map[string]bool{}
+		var cur ast.Node = as
+		for p := pm[cur]; p != nil; cur, p = p, pm[p] {
+			is, ok := p.(*ast.IfStmt)
+			if !ok || (cur != ast.Node(is.Body) && cur != is.Else) {
+				continue
+			}
+			for _, e := range []ast.Node{is.Init, is.Cond} {
+				if e == nil {
+					continue
+				}
+				walk(e, func(x ast.Node) bool {
+					if call, ok := x.(*ast.CallExpr); ok {
+						if k := calleeKey(info, call); strings.HasPrefix(k, "reflect/protoreflect.FieldDescriptor.") {
+							mentioned[k[strings.LastIndex(k, ".")+1:]] = true
+						}
+					}
+					return true
+				})
+			}
+		}
+		other := ""
+		for _, a := range descWriteGuards {
+			if a != want && mentioned[a] {
+				other = a
+			}
+		}
+		construct := fi.Key + " " + se.Sel.Name
+		switch {
+		case !mentioned[want]:
+			R.Bad(rule, construct, P.Pos(as), se.Sel.Name+" is written without a guard on "+want+"(), the accessor NewFile feeds from this field: descriptors for which the guards differ lose or gain the attribute on the round trip")
+		case other != "":
+			R.Bad(rule, construct, P.Pos(as), se.Sel.Name+" is written under a guard on "+other+"() as well: fields that have the attribute but fail that other test (e.g. proto3 optional extensions, which have no containing oneof) lose it")
+		default:
+			R.OK(rule, construct, P.Pos(as), "written under "+want+"()")
+		}
+		return true
+	})
+	for f, a := range descWriteGuards {
+		if !seen[f] {
+			R.Bad(rule, fi.Key+" "+f, P.Pos(fi.Decl), f+" is never written ("+a+"() is lost on conversion)")
+		}
+	}
+}
